@@ -211,6 +211,9 @@ def doc_grammar(repo):
 
 
 # --- tokenizer tables -----------------------------------------------------------------
+REGEX_FLAGS = {}   # (repo root, line of the table entry) -> source text of the flags argument, if any
+
+
 def tokenizer_tables(repo):
     m = repo.mod(TOKENIZER)
     lits = regs = None
@@ -231,8 +234,13 @@ def tokenizer_tables(repo):
                 if not (isinstance(e, ast.Call) and len(e.args) >= 2):
                     raise AnalysisError("tokenizer: REGEX_TOKEN_PATTERNS entry not a call")
                 rc = e.args[0]
-                if not (isinstance(rc, ast.Call) and call_name(rc) == "re.compile" and len(rc.args) == 1):
-                    raise AnalysisError("tokenizer: regex entry is not re.compile(<literal>)")
+                if not (isinstance(rc, ast.Call) and call_name(rc) == "re.compile" and 1 <= len(rc.args) <= 2 and not rc.keywords) \
+                        and not (isinstance(rc, ast.Call) and call_name(rc) == "re.compile" and len(rc.args) == 1 and
+                                 all(k.arg == "flags" for k in rc.keywords)):
+                    raise AnalysisError("tokenizer: regex entry is not re.compile(<literal>[, flags])")
+                fl = rc.args[1] if len(rc.args) == 2 else next((k.value for k in rc.keywords if k.arg == "flags"), None)
+                if fl is not None:
+                    REGEX_FLAGS[(repo.root, e.lineno)] = ast.unparse(fl)
                 pat = _const_text(rc.args[0])
                 sym = e.args[1].value if isinstance(e.args[1], ast.Constant) else "?"
                 if pat is None or sym == "?":
